@@ -38,7 +38,13 @@ pub fn units() -> Vec<Unit> {
 pub fn units_over(wide: bool) -> Vec<Unit> {
     let inv = layout_inverse(Layout::Synthetic);
     let k = |v: &str| -> K { *inv.get(v).unwrap_or_else(|| panic!("synthetic layout lacks {v:?}")) };
-    let mut all: Vec<(String, K)> = inv.iter().filter(|(v, _)| v.chars().count() == 1 && v.chars().all(|c| model::is_consonant(c) && c != model::KHANDA_TA)).map(|(v, key)| (v.clone(), *key)).collect();
+    // single consonants, and conjuncts that ONE key delivers (a consonant, hasanta, a consonant - the synthetic layout has
+    // such a key): for the vowel-sign order they are consonants like any other
+    let cons_like = |v: &str| {
+        let cs: Vec<char> = v.chars().collect();
+        (cs.len() == 1 && model::is_consonant(cs[0]) && cs[0] != model::KHANDA_TA) || (cs.len() == 3 && model::is_consonant(cs[0]) && cs[1] == model::HASANTA && model::is_consonant(cs[2]))
+    };
+    let mut all: Vec<(String, K)> = inv.iter().filter(|(v, _)| cons_like(v)).map(|(v, key)| (v.clone(), *key)).collect();
     all.sort();
     let narrow = [("\u{0995}".to_string(), k("\u{0995}")), ("\u{09B0}".to_string(), k("\u{09B0}")), ("\u{09B8}".to_string(), k("\u{09B8}"))];
     let cons: Vec<(String, K)> = if wide { all } else { narrow.to_vec() };
